@@ -171,3 +171,11 @@ Theorem C15_source_make_child : forall (B : backend) (u : url) (paths : list str
   gen_make_child B u paths encoded = make_child B u paths encoded.
 Proof. exact gen_make_child_ok. Qed.
 Print Assumptions C15_source_make_child.
+
+(** ... and URL.build, another way to put a path under an authority / to write a port / a host
+    (statement and comment: C07_source_build) *)
+From Yarl Require Import Model.Url Model.GenTypes Model.GenQTypes Generated.UrlGen Proofs.GenBuildProofs.
+Theorem C15_source_build : forall (O : oracles) (B : backend) (a : build_args),
+  same_outcome (gen_build O B a) (build O B a).
+Proof. exact gen_build_ok. Qed.
+Print Assumptions C15_source_build.
